@@ -4,12 +4,16 @@
 (* script of call descriptors; the C++ driver executes it on real Serializer / Deserializer objects  *)
 (* and the recorded trace is validated against Trace_Codecs.  Sizes >= WordMax - 8 stand for sizes    *)
 (* close to SIZE_MAX (descriptor n = -1 is SIZE_MAX, -2 is SIZE_MAX - 1, ...).                        *)
-EXTENDS MC_Serializer, Json
+EXTENDS MC_Serializer, Json, TLC
 CONSTANT Depth
 VARIABLE hist
 gvars == <<mvars, hist>>
 H(d) == hist' = Append(hist, d)
-N(need) == IF need >= WordMax - 8 THEN need - WordMax - 1 ELSE need
+N(need) == IF need \in Needs THEN need - WordMax - 1 ELSE need
+\* two value patterns per width keep the random walk from drowning in payload choices
+Pat(n) == {[i \in 1..n |-> IF i % 2 = 1 THEN 1 ELSE 254], [i \in 1..n |-> 255 - i]}
+GField == [form : {"int", "pod"}, v : UNION {Pat(w) : w \in Widths}] \cup [form : {"raw"}, v : UNION {Pat(n) : n \in RawLens}]
+NPuts == Cardinality({i \in 1..Len(hist) : hist[i].e = "SerPut"})
 GInit == MInit /\ hist = <<>>
 GNext ==
   \/ \E k \in {"raw", "vec"}, n \in Sizes, b \in BOOLEAN :
@@ -18,16 +22,17 @@ GNext ==
        /\ des' = NoDes /\ res' = [op |-> "sernew"] /\ UNCHANGED <<sent, pending, bad>>
        /\ H([e |-> "SerNew", kind |-> k, size |-> IF k = "raw" THEN n ELSE 0, big |-> b])
   \/ \E b \in BOOLEAN : ~des.alive /\ SerEndian(b) /\ UNCHANGED <<sent, pending, bad>> /\ H([e |-> "SerEndian", big |-> b])
-  \/ \E f \in Field : ~des.alive /\ SerPut(f.form, f.v) /\ UNCHANGED <<pending, bad>>
-                      /\ sent' = IF res'.ok THEN Append(sent, [form |-> f.form, v |-> f.v, big |-> ser.big]) ELSE sent
+  \/ \E f \in GField : ~des.alive /\ NPuts < MaxFields /\ SerPut(f.form, f.v) /\ UNCHANGED <<pending, bad>>
+                      /\ sent' = (IF res'.ok THEN Append(sent, [form |-> f.form, v |-> f.v, big |-> ser.big]) ELSE sent)
                       /\ H([e |-> "SerPut", form |-> f.form, v |-> f.v, n |-> Len(f.v)])
-  \/ \E need \in Needs : ~des.alive /\ ser.kind = "raw" /\ SerPutHuge /\ UNCHANGED <<sent, pending, bad>>
+  \/ \E need \in Needs : ~des.alive /\ NPuts < MaxFields /\ ser.kind = "raw" /\ SerPutHuge /\ UNCHANGED <<sent, pending, bad>>
                          /\ H([e |-> "SerPut", form |-> "raw", v |-> <<>>, n |-> N(need)])
   \/ \E b \in BOOLEAN : /\ ~des.alive /\ ser.alive
                         /\ des' = [alive |-> TRUE, data |-> SubSeq(ser.mem, 1, ser.pos), big |-> b, pos |-> 0]
                         /\ res' = [op |-> "desnew"] /\ pending' = sent /\ UNCHANGED <<ser, sent, bad>>
                         /\ H([e |-> "Transfer", big |-> b])
-  \/ \E n \in Sizes, b \in BOOLEAN : \E d \in Vals(n) : ~des.alive /\ DesNew(d, b) /\ UNCHANGED <<sent, pending, bad>>
+  \/ \E n \in Sizes, b \in BOOLEAN : \E d \in {[i \in 1..n |-> IF i % 2 = 1 THEN 1 ELSE 254], [i \in 1..n |-> 128 + i]} :
+                        res.op = "init" /\ DesNew(d, b) /\ UNCHANGED <<sent, pending, bad>>
                         /\ H([e |-> "DesNew", data |-> d, big |-> b])
   \/ \E b \in BOOLEAN : DesEndian(b) /\ UNCHANGED <<sent, pending, bad>> /\ H([e |-> "DesEndian", big |-> b])
   \/ \E form \in {"int", "pod", "raw"}, need \in Widths \cup RawLens \cup Needs :
